@@ -45,7 +45,7 @@ func init() {
 			if m.Counters["docs_large"] == 0 {
 				out = append(out, "no document with output > 8192 bytes")
 			}
-			for _, v := range []string{"plain", "bufio16", "bufio4096", "bufio65536", "every-call", "one-byte", "fail-once", "render-plain"} {
+			for _, v := range []string{"plain", "bufio16", "bufio4096", "bufio65536", "every-call", "one-byte", "fail-once", "render-plain", "uncomparable-error"} {
 				if m.Sets["writer_variants"][v] == 0 {
 					out = append(out, "writer variant never used: "+v)
 				}
@@ -57,12 +57,25 @@ func init() {
 
 var errC14 = errors.New("verif: injected writer failure")
 
+// c14SliceErr is a writer error of an uncomparable dynamic type (the shape of a multi-error): comparing it with == panics,
+// errors.Is must go through its Is method.
+type c14SliceErr []error
+
+func (e c14SliceErr) Error() string { return "verif: injected writer failure (list of " + fmt.Sprint(len(e)) + ")" }
+func (e c14SliceErr) Is(t error) bool {
+	x, ok := t.(c14SliceErr)
+	return ok && len(x) == len(e) && len(e) > 0 && e[0] == x[0]
+}
+
+var errC14Slice = c14SliceErr{errC14, errors.New("second")}
+
 // failWriter accepts exactly limit bytes in total, then returns errC14 (forever, or once when once is set).
 type failWriter struct {
 	limit    int
 	got      []byte
 	once     bool
 	failed   int
+	sliceErr bool // the error returned is of an uncomparable type
 	perCall  int // >0: accept at most perCall bytes per Write call (legal short-write-free chunking is done by returning full count)
 	calls    int
 	everyErr bool // fail on every call from the start
@@ -88,6 +101,9 @@ func (w *failWriter) Write(p []byte) (int, error) {
 	}
 	w.got = append(w.got, p[:room]...)
 	w.failed++
+	if w.sliceErr {
+		return room, errC14Slice
+	}
 	return room, errC14
 }
 
@@ -163,6 +179,8 @@ func c14Run(c *core.Ctx, k c14Case, variant string, off int) {
 		fw.everyErr = true
 	case "fail-once":
 		fw.once = true
+	case "uncomparable-error":
+		fw.sliceErr = true
 	}
 	_ = flush
 	var err error
@@ -195,7 +213,12 @@ func c14Run(c *core.Ctx, k c14Case, variant string, off int) {
 			c14Violation(c, k, variant, off, "success-reported-after-writer-failure", fmt.Sprintf("returned nil although the writer failed %d time(s) and accepted only %d bytes", fw.failed, len(fw.got)))
 			return
 		}
-		if !errors.Is(err, errC14) {
+		if want := error(errC14); !errors.Is(err, func() error {
+			if fw.sliceErr {
+				return errC14Slice
+			}
+			return want
+		}()) {
 			c14Violation(c, k, variant, off, "error-not-wrapping-writer-error", fmt.Sprintf("returned %q which does not wrap the writer's error", err.Error()))
 			return
 		}
@@ -258,7 +281,7 @@ func runC14(c *core.Ctx) {
 		{Ext: cfg.ExtAll, Unsafe: true, HardWraps: true}, {Ext: cfg.ExtTypographer}}
 	pool := cfg.NewPool()
 	ndocs := c.PerShard(c.N(640, 32000))
-	variants := []string{"plain", "render-plain", "bufio16", "bufio4096", "bufio65536", "fail-once"}
+	variants := []string{"plain", "render-plain", "bufio16", "bufio4096", "bufio65536", "fail-once", "uncomparable-error"}
 	for i := 0; i < ndocs; i++ {
 		var src []byte
 		switch {
